@@ -317,7 +317,7 @@ pub fn trait_programs() -> Vec<Prog> {
 
 /// Write one crate and run cargo check; returns for each program the list of error codes found in it.
 pub fn check_crate(krate: &str, progs: &[Prog]) -> Result<BTreeMap<String, Vec<String>>, String> {
-    let dir = format!("{VERIF}/out/progs/{krate}");
+    let dir = format!("{}/out/progs/{krate}", crate::engine::verif_root());
     std::fs::create_dir_all(format!("{dir}/src")).map_err(|e| e.to_string())?;
     std::fs::create_dir_all(format!("{dir}/.cargo")).map_err(|e| e.to_string())?;
     std::fs::write(
@@ -326,7 +326,7 @@ pub fn check_crate(krate: &str, progs: &[Prog]) -> Result<BTreeMap<String, Vec<S
     )
     .map_err(|e| e.to_string())?;
     std::fs::write(format!("{dir}/.cargo/config.toml"), "[net]\noffline = true\n").map_err(|e| e.to_string())?;
-    let _ = std::fs::copy(format!("{VERIF}/harness/Cargo.lock"), format!("{dir}/Cargo.lock"));
+    let _ = std::fs::copy(format!("{}/harness/Cargo.lock", crate::engine::verif_root()), format!("{dir}/Cargo.lock"));
     let mut src = String::new();
     src.push_str(if krate == "borrow" { PRELUDE_BORROW } else { PRELUDE_TRAITS });
     let mut ranges: Vec<(usize, usize, String)> = Vec::new();
@@ -341,7 +341,7 @@ pub fn check_crate(krate: &str, progs: &[Prog]) -> Result<BTreeMap<String, Vec<S
     }
     std::fs::write(format!("{dir}/src/lib.rs"), &src).map_err(|e| e.to_string())?;
     let out = Command::new("cargo")
-        .args(["check", "--offline", "--message-format=json", "--target-dir", &format!("{VERIF}/target/progs")])
+        .args(["check", "--offline", "--message-format=json", "--target-dir", &format!("{}/target/progs", crate::engine::verif_root())])
         .current_dir(&dir)
         .env("CARGO_NET_OFFLINE", "true")
         .output()
